@@ -40,6 +40,17 @@ def build(tier: str) -> List[Cond]:
                                           module="vf.h.c20", func="o_copy_independent", shape=shape, sym=sym + [("which", "int")],
                                           pre=spre + [f"0 <= which < {len(H._MUTATORS)}"], timeout=t, functions=FUNCS,
                                           bounds=f"len {L}; {len(H._MUTATORS)} mutators (symbolic selector)"))
+        for npos in (0, 1, 2):
+            if npos > L or (L >= 3 and npos == 2 and tier == "quick"):
+                continue
+            for glob in (False, True):
+                for nint in ((0, 1) if L <= 2 or tier == "thorough" else (0,)):
+                    sym = [("amb", "bool")] + [(f"p{i}", "int") for i in range(npos)] + ([("a0", "int"), ("b0", "int")] if nint else [])
+                    pre = [f"0 <= p{i} < {L}" for i in range(npos)] + ([f"0 <= a0 < b0 <= {L}"] if nint else [])
+                    conds.append(Cond(oid=f"moddict-forms/{seq}/mods={npos}/glob={int(glob)}/intervals={nint}",
+                                      clause="the same round trip through pop_mods and with the peptide given as a ProForma string",
+                                      module="vf.h.c20", func="o_mod_dict_roundtrip", shape=dict(seq=seq, npos=npos, glob=glob, nint=nint, forms=True),
+                                      sym=sym, pre=pre, timeout=t, functions=FUNCS, bounds=f"len {L}; modification positions, interval bounds, ambiguity symbolic"))
         for glob in (False, True):
             for nint in (0, 1):
                 conds.append(Cond(oid=f"equality/{seq}/glob={int(glob)}/intervals={nint}", clause="== reflexive, symmetric, order-insensitive per position, sensitive to every other single-field difference",
@@ -50,7 +61,8 @@ def build(tier: str) -> List[Cond]:
 
 
 def run(tier: str, seed: int, only=None) -> Report:
-    conds = build(tier)
+    from ..ch import tier_conds
+    conds = tier_conds(build, tier, cap=200)
     if only:
         conds = [c for c in conds if only in c.oid]
     rep = Report(
